@@ -14,7 +14,7 @@ Ltac unfold_events :=
 Lemma table_repaired c f e : conformsb c f e (step c Repaired f e) = true.
 Proof.
   destruct c as [mc mt lc]; destruct lc;
-  destruct f as [s i r fl l a o hl]; destruct e as [| | | | |code id k data].
+  destruct f as [s i r fl l a o hl ns pk]; destruct e as [| | | | |code id k data].
   all: try (destruct s; reflexivity).
   all: try (unfold conformsb, classify, step, timeout; cbn; destruct a; destruct (r >? 0); destruct s; reflexivity).
   all: unfold conformsb, classify; unfold_events; cbn;
@@ -32,7 +32,7 @@ Lemma table_defective_off_bad c f e :
   ncp_lcp_code c e = true.
 Proof.
   destruct c as [mc mt lc]; destruct lc;
-  destruct f as [s i r fl l a o hl]; destruct e as [| | | | |code id k data].
+  destruct f as [s i r fl l a o hl ns pk]; destruct e as [| | | | |code id k data].
   all: try (left; destruct s; reflexivity).
   all: try (destruct s; try (left; reflexivity); right; left; exists ROpen; split; reflexivity).
   all: try (left; unfold conformsb, classify, step, timeout; cbn; destruct a; destruct (r >? 0); destruct s; reflexivity).
@@ -46,7 +46,7 @@ Lemma table_lcp_cells_fixed c v f e :
   fix_cells v = true -> lcp c = true -> conformsb c f e (step c v f e) = true.
 Proof.
   destruct c as [mc mt lc]; cbn; intros FC ->; destruct v as [fc fn]; cbn in FC; subst fc; destruct fn;
-  destruct f as [s i r fl l a o hl]; destruct e as [| | | | |code id k data].
+  destruct f as [s i r fl l a o hl ns pk]; destruct e as [| | | | |code id k data].
   all: try (destruct s; reflexivity).
   all: try (unfold conformsb, classify, step, timeout; cbn; destruct a; destruct (r >? 0); destruct s; reflexivity).
   all: unfold conformsb, classify; unfold_events; cbn;
@@ -58,7 +58,7 @@ Qed.
 Lemma counter_ok c v f e :
   restart (step c v f e) = counter_after c f e (outs (step c v f e)).
 Proof.
-  destruct f as [s i r fl l a o hl]; destruct e as [| | | | |code id k data].
+  destruct f as [s i r fl l a o hl ns pk]; destruct e as [| | | | |code id k data].
   1-4: destruct s; destruct v as [[|] [|]]; reflexivity.
   - unfold counter_after, step, timeout; cbn. destruct a; destruct (r >? 0); destruct s; reflexivity.
   - unfold counter_after; unfold_events; cbn.
@@ -68,7 +68,7 @@ Qed.
 
 Lemma ids_ok c v f e : ids_okb f e (outs (step c v f e)) = true.
 Proof.
-  destruct f as [s i r fl l a o hl]; destruct e as [| | | | |code id k data].
+  destruct f as [s i r fl l a o hl ns pk]; destruct e as [| | | | |code id k data].
   1-4: destruct s; destruct v as [[|] [|]]; cbn; rewrite ?Z.eqb_refl; reflexivity.
   - unfold ids_okb, step, timeout; cbn. destruct a; destruct (r >? 0); destruct s; cbn; rewrite ?Z.eqb_refl; reflexivity.
   - unfold ids_okb; unfold_events; cbn.
@@ -113,7 +113,7 @@ Lemma step_last_scr c v f e acc :
   let acc' := last_scr acc (IEv e :: map IAct (outs f')) in
   (acc' = None /\ acc = None /\ lastReq f' = lastReq f) \/ acc' = Some (lastReq f').
 Proof.
-  intros H; destruct f as [s i r fl l a o hl]; cbn in H.
+  intros H; destruct f as [s i r fl l a o hl ns pk]; cbn in H.
   destruct e as [| | | | |code id k data].
   1-4: destruct s; destruct v as [[|] [|]]; cbn; destruct H as [->| ->]; auto.
   - unfold step, timeout; cbn. destruct a; destruct (r >? 0); destruct s; cbn; destruct H as [->| ->]; auto.
@@ -146,13 +146,13 @@ Proof.
       * right; exact X.
 Qed.
 
-Lemma lastReq_is_last_scr c v es :
-  match last_scr None (trace c v init es) with
-  | Some i => lastReq (run c v init es) = i
-  | None => lastReq (run c v init es) = 0
+Lemma lastReq_is_last_scr i0 pk0 c v es :
+  match last_scr None (trace c v (init_id i0 pk0) es) with
+  | Some i => lastReq (run c v (init_id i0 pk0) es) = i
+  | None => lastReq (run c v (init_id i0 pk0) es) = 0
   end.
 Proof.
-  destruct (trace_last_scr c v es init None (or_introl eq_refl)) as [(A & B)|A]; rewrite A; [exact B|reflexivity].
+  destruct (trace_last_scr c v es (init_id i0 pk0) None (or_introl eq_refl)) as [(A & B)|A]; rewrite A; [exact B|reflexivity].
 Qed.
 
 (* ------------------------------------------------------------ 4. tlu / tld alternate *)
@@ -178,7 +178,7 @@ Definition is_opened (s : St) : bool := st_eqb s Opened.
 Lemma step_alt c v f e :
   alt_acts (is_opened (st f)) (outs (step c v f e)) = Some (is_opened (st (step c v f e))).
 Proof.
-  destruct f as [s i r fl l a o hl]; destruct e as [| | | | |code id k data].
+  destruct f as [s i r fl l a o hl ns pk]; destruct e as [| | | | |code id k data].
   1-4: destruct s; destruct v as [[|] [|]]; reflexivity.
   - unfold step, timeout; cbn. destruct a; destruct (r >? 0); destruct s; reflexivity.
   - unfold_events; cbn.
@@ -194,8 +194,8 @@ Proof.
   rewrite alternates_acts, step_alt. apply IH.
 Qed.
 
-Lemma alternates_init c v es : alternates false (trace c v init es) = true.
-Proof. exact (alternates_from c v es init). Qed.
+Lemma alternates_init i0 pk0 c v es : alternates false (trace c v (init_id i0 pk0) es) = true.
+Proof. exact (alternates_from c v es (init_id i0 pk0)). Qed.
 
 (* a layer is "up" (tlu outstanding) exactly in Opened *)
 Fixpoint up_after (up : bool) (t : list Item) : bool :=
@@ -219,9 +219,9 @@ Proof.
   rewrite (up_after_acts _ _ _ _ (step_alt c v f e)). apply IH.
 Qed.
 
-Lemma up_iff_opened_init c v es :
-  up_after false (trace c v init es) = is_opened (st (run c v init es)).
-Proof. exact (up_iff_opened_from c v es init). Qed.
+Lemma up_iff_opened_init i0 pk0 c v es :
+  up_after false (trace c v (init_id i0 pk0) es) = is_opened (st (run c v (init_id i0 pk0) es)).
+Proof. exact (up_iff_opened_from c v es (init_id i0 pk0)). Qed.
 
 (* ------------------------------------------------------------ 5. tlu needs both acknowledgements *)
 
@@ -257,7 +257,7 @@ Lemma mon_step_ok strict c v f e m :
              MInv m' (step c v f e).
 Proof.
   intros SV (H1 & H2 & H3).
-  destruct m as [ls ou lr th]; destruct f as [s i r fl l a o hl]; cbn in H1, H2, H3.
+  destruct m as [ls ou lr th]; destruct f as [s i r fl l a o hl ns pk]; cbn in H1, H2, H3.
   destruct e as [| | | | |code id k data].
   1-4: destruct s; destruct v as [[|] [|]]; cbn; eexists; (split; [reflexivity|]); minv_solve.
   - unfold step, timeout; cbn. destruct a; destruct (r >? 0); destruct s; cbn; eexists; (split; [reflexivity|]); minv_solve.
@@ -315,19 +315,19 @@ Proof.
     rewrite mon_run_app, R. exact (IH _ _ I').
 Qed.
 
-Lemma MInv_init : MInv mon0 init.
+Lemma MInv_init i0 pk0 : MInv mon0 (init_id i0 pk0).
 Proof. unfold MInv; cbn; repeat split; intros; try discriminate; destruct H; discriminate. Qed.
 
-Lemma both_acked_strict_repaired c es : both_acked true (trace c Repaired init es) = true.
+Lemma both_acked_strict_repaired i0 pk0 c es : both_acked true (trace c Repaired (init_id i0 pk0) es) = true.
 Proof.
-  unfold both_acked. destruct (mon_trace_ok true c Repaired es (fun _ => eq_refl) init mon0 MInv_init) as (m & ->).
+  unfold both_acked. destruct (mon_trace_ok true c Repaired es (fun _ => eq_refl) (init_id i0 pk0) mon0 (MInv_init i0 pk0)) as (m & ->).
   reflexivity.
 Qed.
 
-Lemma both_acked_weak_any c v es : both_acked false (trace c v init es) = true.
+Lemma both_acked_weak_any i0 pk0 c v es : both_acked false (trace c v (init_id i0 pk0) es) = true.
 Proof.
   unfold both_acked.
-  destruct (mon_trace_ok false c v es (fun H => ltac:(discriminate)) init mon0 MInv_init) as (m & ->).
+  destruct (mon_trace_ok false c v es (fun H => ltac:(discriminate)) (init_id i0 pk0) mon0 (MInv_init i0 pk0)) as (m & ->).
   reflexivity.
 Qed.
 
@@ -338,7 +338,7 @@ Definition TInv (f : fsm) : Prop := waiting (st f) = true -> armed f = true.
 Lemma tinv_step c v f e : fix_cells v = true -> TInv f -> TInv (step c v f e).
 Proof.
   intros FC; destruct v as [fc fn]; cbn in FC; subst fc.
-  unfold TInv; destruct f as [s i r fl l a o hl]; cbn; intros H.
+  unfold TInv; destruct f as [s i r fl l a o hl ns pk]; cbn; intros H.
   destruct fn; destruct e as [| | | | |code id k data].
   all: try (destruct s; cbn; intros; try discriminate; auto; fail).
   all: try (unfold step, timeout; cbn; destruct a; destruct (r >? 0); destruct s; cbn; intros; try discriminate; auto; fail).
@@ -350,9 +350,9 @@ Qed.
 Lemma tinv_run c v es : fix_cells v = true -> forall f, TInv f -> TInv (run c v f es).
 Proof. intros FC; induction es as [|e es IH]; intros f I; [exact I|]. cbn. apply IH, tinv_step; assumption. Qed.
 
-Lemma timer_armed c es :
-  waiting (st (run c Repaired init es)) = true -> armed (run c Repaired init es) = true.
-Proof. apply (tinv_run c Repaired es eq_refl init). intros H; discriminate. Qed.
+Lemma timer_armed i0 pk0 c es :
+  waiting (st (run c Repaired (init_id i0 pk0) es)) = true -> armed (run c Repaired (init_id i0 pk0) es) = true.
+Proof. apply (tinv_run c Repaired es eq_refl (init_id i0 pk0)). intros H; discriminate. Qed.
 
 (* ------------------------------------------------------------ 6. bounded retransmission *)
 
@@ -374,7 +374,7 @@ Lemma timeout_step c v f :
   else (st f' = Closed \/ st f' = Stopped) /\ restart f' = restart f /\
        count_acts is_retrans (map IAct (outs f')) = 0%nat /\ count_acts is_tlf (map IAct (outs f')) = 1%nat.
 Proof.
-  destruct f as [s i r fl l a o hl]; cbn; intros W ->; unfold step, timeout; cbn.
+  destruct f as [s i r fl l a o hl ns pk]; cbn; intros W ->; unfold step, timeout; cbn.
   destruct (r >? 0); destruct s; try discriminate; cbn; auto 10.
 Qed.
 
@@ -419,7 +419,7 @@ Lemma rinv_step c v f e :
   0 <= maxConf c -> 0 <= maxTerm c -> RInv c f -> RInv c (step c v f e).
 Proof.
   intros HC HT (H1 & H2 & H3).
-  destruct f as [s i r fl l a o hl]; cbn in H1, H2, H3.
+  destruct f as [s i r fl l a o hl ns pk]; cbn in H1, H2, H3.
   destruct e as [| | | | |code id k data].
   1-4: destruct s; destruct v as [[|] [|]]; rinv_solve.
   - unfold step, timeout; cbn. destruct a; (destruct (r >? 0) eqn:E; [apply Z.gtb_lt in E|]);
@@ -436,13 +436,13 @@ Proof.
   cbn. apply IH, rinv_step; assumption.
 Qed.
 
-Lemma rinv_init c : 0 <= maxConf c -> 0 <= maxTerm c -> RInv c init.
+Lemma rinv_init i0 pk0 c : 0 <= maxConf c -> 0 <= maxTerm c -> RInv c (init_id i0 pk0).
 Proof. intros; rinv_solve. Qed.
 
-Lemma bounded c v es :
+Lemma bounded i0 pk0 c v es :
   fix_cells v = true ->
   0 <= maxConf c -> 0 <= maxTerm c ->
-  let f := run c v init es in
+  let f := run c v (init_id i0 pk0) es in
   waiting (st f) = true ->
   exists n : nat,
     Z.of_nat n = restart f /\
@@ -453,8 +453,8 @@ Lemma bounded c v es :
     count_acts is_tlf (trace c v f ts) = 1%nat.
 Proof.
   intros FC HC HT f W.
-  assert (AR : armed f = true) by (apply (tinv_run c v es FC init); [intros X; discriminate|exact W]).
-  pose proof (rinv_run c v es HC HT init (rinv_init c HC HT)) as (R1 & R2 & R3). fold f in R1, R2, R3.
+  assert (AR : armed f = true) by (apply (tinv_run c v es FC (init_id i0 pk0)); [intros X; discriminate|exact W]).
+  pose proof (rinv_run c v es HC HT (init_id i0 pk0) (rinv_init i0 pk0 c HC HT)) as (R1 & R2 & R3). fold f in R1, R2, R3.
   exists (Z.to_nat (restart f)). rewrite Z2Nat.id by lia. split; [reflexivity|]. split.
   - destruct (st f) eqn:S; try discriminate; try (apply R2; auto; fail); apply R3; reflexivity.
   - destruct (timeouts_end c v (Z.to_nat (restart f)) f W AR) as (A & B & C & _).
@@ -477,7 +477,7 @@ Ltac finv_solve :=
 
 Lemma finv_step c f e : FInv c f -> FInv c (step c Repaired f e).
 Proof.
-  destruct f as [s i r fl l a o hl]; cbn; intros (H & H'); cbn in H, H'.
+  destruct f as [s i r fl l a o hl ns pk]; cbn; intros (H & H'); cbn in H, H'.
   destruct e as [| | | | |code id k data].
   1-4: destruct s; finv_solve.
   - unfold step, timeout; cbn. destruct a; destruct (r >? 0); destruct s; finv_solve.
@@ -488,7 +488,7 @@ Qed.
 Lemma finv_run c es : forall f, FInv c f -> FInv c (run c Repaired f es).
 Proof. induction es as [|e es IH]; intros f I; [exact I|]. cbn. apply IH, finv_step, I. Qed.
 
-Lemma finv_init c : FInv c init.
+Lemma finv_init i0 pk0 c : FInv c (init_id i0 pk0).
 Proof. split; cbn; [intros [X|X]; discriminate|discriminate]. Qed.
 Lemma finv_restored c f : FInv c (restore true c f).
 Proof. split; cbn; auto. Qed.
@@ -501,7 +501,7 @@ Lemma fresh_negotiation_step c f e :
   existsb is_scr (outs (step c Repaired f e)) = true ->
   restart (step c Repaired f e) = maxConf c /\ negotiating (st (step c Repaired f e)) = true.
 Proof.
-  destruct f as [s i r fl l a o hl]; cbn; intros (H & H') S; cbn in H, H'.
+  destruct f as [s i r fl l a o hl ns pk]; cbn; intros (H & H') S; cbn in H, H'.
   destruct e as [| | | | |code id k data].
   1-4: destruct s; try discriminate; cbn; intros; try discriminate; auto.
   - unfold step, timeout; cbn. destruct a; destruct (r >? 0); destruct s; try discriminate; cbn; intros; try discriminate; auto.
@@ -511,10 +511,11 @@ Proof.
 Qed.
 
 (* [start] = a fresh automaton, or one restored into Opened by the (repaired) Restore *)
-Definition start (restored : bool) (c : cfg) : fsm := if restored then restore true c init else init.
+Definition start (i0 : Z) (pk0 : nat -> Z) (restored : bool) (c : cfg) : fsm :=
+  if restored then restore true c (init_id i0 pk0) else init_id i0 pk0.
 
-Lemma fresh_negotiation c restored es e :
-  let f := run c Repaired (start restored c) es in
+Lemma fresh_negotiation i0 pk0 c restored es e :
+  let f := run c Repaired (start i0 pk0 restored c) es in
   starts_negotiation (st f) = true ->
   existsb is_scr (outs (step c Repaired f e)) = true ->
   restart (step c Repaired f e) = maxConf c /\ negotiating (st (step c Repaired f e)) = true.
